@@ -173,6 +173,11 @@ func SetSymmetricDifference(sets ...cty.Value) (cty.Value, error) {
 func setOperationReturnType(args []cty.Value) (ret cty.Type, err error) {
 	var etys []cty.Type
 	for _, arg := range args {
+		if arg.Type() == cty.DynamicPseudoType {
+			// (the parameters allow a dynamically-typed argument through)
+			// Nothing is known about the result type until this one is known.
+			return cty.DynamicPseudoType, nil
+		}
 		ty := arg.Type().ElementType()
 
 		// Do not unify types for empty dynamic pseudo typed collections. These
@@ -199,6 +204,10 @@ func setOperationReturnType(args []cty.Value) (ret cty.Type, err error) {
 
 func setOperationImpl(f func(s1, s2 cty.ValueSet) cty.ValueSet, allowUnknowns bool) function.ImplFunc {
 	return func(args []cty.Value, retType cty.Type) (ret cty.Value, err error) {
+		if retType == cty.DynamicPseudoType {
+			// an argument whose type is not known yet: see setOperationReturnType
+			return cty.DynamicVal, nil
+		}
 		first := args[0]
 		first, err = convert.Convert(first, retType)
 		if err != nil {
